@@ -43,6 +43,33 @@ type c10gen struct {
 	n     int
 	funcs []pt.Stmt
 	depth int
+	// trace: record observations by appending to the global arrays tn ([]num) / ts ([]string) instead of
+	// calling print (for targets without built-ins, e.g. the bytecode compiler)
+	trace bool
+}
+
+// num records a numeric observation.
+func (g *c10gen) num(tag string, e pt.Expr) pt.Stmt {
+	if g.trace {
+		return pt.Assign{Target: pt.V("tn"), X: pt.Bin("+", pt.V("tn"), pt.A(e))}
+	}
+	return pt.Print(pt.S(tag), e)
+}
+
+// str records a string observation.
+func (g *c10gen) str(tag string, e pt.Expr) pt.Stmt {
+	if g.trace {
+		return pt.Assign{Target: pt.V("ts"), X: pt.Bin("+", pt.V("ts"), pt.A(pt.S(tag), e))}
+	}
+	return pt.Print(pt.S(tag), e)
+}
+
+// tag records a position marker.
+func (g *c10gen) tag(tag string) pt.Stmt {
+	if g.trace {
+		return pt.Assign{Target: pt.V("ts"), X: pt.Bin("+", pt.V("ts"), pt.A(pt.S(tag)))}
+	}
+	return pt.Print(pt.S(tag))
 }
 
 type c10ctx struct {
@@ -54,10 +81,7 @@ type c10ctx struct {
 
 func (g *c10gen) id() string { g.n++; return fmt.Sprint(g.n) }
 
-func (g *c10gen) marker(tag string, extra ...pt.Expr) pt.Stmt {
-	args := append([]pt.Expr{pt.S(tag), pt.V("g")}, extra...)
-	return pt.CallStmt{C: pt.Call{Name: "print", Args: args}}
-}
+func (g *c10gen) marker(tag string) pt.Stmt { return g.num(tag, pt.V("g")) }
 
 // block generates the statements of one block with d more nesting levels available.
 func (g *c10gen) block(d int, cx c10ctx) []pt.Stmt {
@@ -81,9 +105,9 @@ func (g *c10gen) block(d int, cx c10ctx) []pt.Stmt {
 	case "update":
 		out = append(out, pt.Assign{Target: pt.V("g"), X: pt.Bin("+", pt.V("g"), pt.N(1))})
 	case "local":
-		out = append(out, pt.InferDecl{Name: "l" + id, X: pt.Bin("*", pt.V("g"), pt.N(10))}, pt.Print(pt.S("l"+id), pt.V("l"+id)))
+		out = append(out, pt.InferDecl{Name: "l" + id, X: pt.Bin("*", pt.V("g"), pt.N(10))}, g.num("l"+id, pt.V("l"+id)))
 	case "shadow":
-		out = append(out, pt.InferDecl{Name: "g", X: pt.S("sh" + id)}, g.marker("s"+id))
+		out = append(out, pt.InferDecl{Name: "g", X: pt.S("sh" + id)}, g.str("s"+id, pt.V("g")))
 		shadowed = true
 	case "cond-break":
 		out = append(out, pt.If{Conds: []pt.Expr{pt.Bin(">=", pt.V("g"), pt.N(1))}, Blocks: [][]pt.Stmt{{g.marker("cb" + id), pt.Break{}}}})
@@ -110,26 +134,26 @@ func (g *c10gen) block(d int, cx c10ctx) []pt.Stmt {
 			inner.inLoop = true
 			wv := "w" + id
 			body := append([]pt.Stmt{pt.Assign{Target: pt.V(wv), X: pt.Bin("+", pt.V(wv), pt.N(1))}}, g.block(d-1, inner)...)
-			out = append(out, pt.InferDecl{Name: wv, X: pt.N(0)}, pt.While{Cond: pt.Bin("<", pt.V(wv), pt.N(2)), Body: body}, pt.Print(pt.S(wv), pt.V(wv)))
+			out = append(out, pt.InferDecl{Name: wv, X: pt.N(0)}, pt.While{Cond: pt.Bin("<", pt.V(wv), pt.N(2)), Body: body}, g.num(wv, pt.V(wv)))
 		case "for-num":
 			inner.inLoop = true
 			iv := "i" + id
-			body := append([]pt.Stmt{pt.Print(pt.S(iv), pt.V(iv))}, g.block(d-1, inner)...)
+			body := append([]pt.Stmt{g.num(iv, pt.V(iv))}, g.block(d-1, inner)...)
 			out = append(out, pt.For{Var: iv, Range: []pt.Expr{pt.N(2)}, Body: body})
 		case "for-arr":
 			inner.inLoop = true
 			iv := "e" + id
-			body := append([]pt.Stmt{pt.Print(pt.S(iv), pt.V(iv))}, g.block(d-1, inner)...)
+			body := append([]pt.Stmt{g.str(iv, pt.V(iv))}, g.block(d-1, inner)...)
 			out = append(out, pt.For{Var: iv, Range: []pt.Expr{pt.A(pt.S("p"), pt.S("q"))}, Body: body})
 		case "for-str":
 			inner.inLoop = true
 			iv := "c" + id
-			body := append([]pt.Stmt{pt.Print(pt.S(iv), pt.V(iv))}, g.block(d-1, inner)...)
+			body := append([]pt.Stmt{g.str(iv, pt.V(iv))}, g.block(d-1, inner)...)
 			out = append(out, pt.For{Var: iv, Range: []pt.Expr{pt.S("é😀")}, Body: body})
 		case "for-map":
 			inner.inLoop = true
 			iv := "k" + id
-			body := append([]pt.Stmt{pt.Print(pt.S(iv), pt.V(iv))}, g.block(d-1, inner)...)
+			body := append([]pt.Stmt{g.str(iv, pt.V(iv))}, g.block(d-1, inner)...)
 			out = append(out, pt.For{Var: iv, Range: []pt.Expr{pt.M("b", pt.N(1), "a", pt.N(2))}, Body: body})
 		case "call":
 			fn := "f" + id
@@ -140,7 +164,7 @@ func (g *c10gen) block(d int, cx c10ctx) []pt.Stmt {
 			if retNum {
 				f.Ret = pt.TNum
 				f.Body = append(f.Body, pt.Return{X: pt.Bin("+", pt.V("g"), pt.N(100))})
-				out = append(out, pt.Print(pt.S("r"+id), pt.C(fn)))
+				out = append(out, g.num("r"+id, pt.C(fn)))
 			} else {
 				out = append(out, pt.CallStmt{C: pt.C(fn)})
 			}
@@ -148,7 +172,11 @@ func (g *c10gen) block(d int, cx c10ctx) []pt.Stmt {
 		}
 	}
 	if tail == nil {
-		out = append(out, g.marker("e"+id))
+		if shadowed {
+			out = append(out, g.str("e"+id, pt.V("g")))
+		} else {
+			out = append(out, g.marker("e"+id))
+		}
 	}
 	return append(out, tail...)
 }
